@@ -48,12 +48,16 @@ func (s *sim) drawConfig() {
 	if rc.Tier == "thorough" {
 		c.TargetHeight = int64(t.Range("target", 3, 12))
 	}
-	c.MaxSim = 90 * time.Second
+	c.MaxSim = 60 * time.Second
 	c.MaxSteps = 250000
 	c.TmoPropose = []time.Duration{time.Second, 300 * time.Millisecond, 3 * time.Second}[t.Choose("tmo", 3)]
 	c.Commit = []time.Duration{50 * time.Millisecond, 10 * time.Millisecond, 500 * time.Millisecond}[t.Choose("commit", 3)]
 	c.LatMin = time.Millisecond
-	c.LatJitter = []time.Duration{20 * time.Millisecond, 0, 200 * time.Millisecond, 1500 * time.Millisecond}[t.Weighted("jitter", 5, 2, 3, 1)]
+	c.LatJitter = []time.Duration{20 * time.Millisecond, 0, 200 * time.Millisecond, 700 * time.Millisecond}[t.Weighted("jitter", 5, 2, 3, 1)]
+	if c.LatJitter > 2*c.TmoPropose {
+		// latencies far above the propose timeout only produce endless failed rounds (liveness is not a listed property)
+		c.TmoPropose = time.Second
+	}
 	c.TxCount = t.Range("txs", 0, 6)
 	c.ValChange = t.Permille("valchange", 300)
 	if prof != "faultfree" {
@@ -69,6 +73,12 @@ func (s *sim) drawConfig() {
 		}
 		if t.Permille("f.part", 300) {
 			c.Partitions = 1 + t.Choose("nparts", 2)
+		}
+		if t.Permille("f.replay", 450) {
+			c.ReplayOld = true
+		}
+		if t.Permille("f.slow", 350) {
+			c.SlowPm = []int{10, 40, 150}[t.Choose("slowrate", 3)]
 		}
 	}
 	if prof == "crash" {
@@ -104,7 +114,7 @@ func (s *sim) drawConfig() {
 			b.equivocate = t.Permille("forge.equiv", 200)
 		}
 	}
-	if t.Permille("skew", 300) {
+	if c.N > 1 && t.Permille("skew", 300) {
 		c.SkewMaxUs = int64([]int{1000, 100000, 5000000}[t.Choose("skewmax", 3)])
 	}
 	rc.Config["n"] = c.N
@@ -133,6 +143,14 @@ func (s *sim) scheduleWorkloadAndFaults() {
 	for i := 0; i < s.cfg.Crashes; i++ {
 		at := time.Duration(t.Range("crash.at", 0, horizon)) * time.Millisecond
 		s.schedule(at, "arm-crash", func() { s.armCrash() })
+	}
+	if s.cfg.ReplayOld {
+		var tick func()
+		tick = func() {
+			s.replayOld()
+			s.schedule(time.Duration(100+t.Choose("replay.gap", 600))*time.Millisecond, "replay-old", tick)
+		}
+		s.schedule(400*time.Millisecond, "replay-old", tick)
 	}
 	for i := 0; i < s.cfg.Partitions; i++ {
 		at := time.Duration(t.Range("part.at", 0, horizon)) * time.Millisecond
